@@ -27,6 +27,7 @@ import (
 	"strconv"
 	"strings"
 	"testing"
+	"testing/synctest"
 
 	"github.com/gin-gonic/gin"
 
@@ -73,6 +74,7 @@ func (d c04Digest) toks() string {
 type c04Op struct {
 	Kind    string // upload create copy delete prune plant corrupt dashify litter
 	File    string // litter: file name inside blobs/
+	Reg      *c04Reg // pull: what the registry serves for the name (nil: it has no such model)
 	NoStream bool  // create: "stream": false (the waitForStream path; only generated when N1 is repaired)
 	D       c04Digest
 	Content []byte
@@ -86,6 +88,34 @@ type c04Op struct {
 	Params  [][2]string // key, raw JSON value
 	Src     c04Name
 	Dst     c04Name
+}
+
+// c04Reg is the in-memory registry's answer for one pull: the honest contents (digests and sizes of the
+// manifest are theirs) and the bytes it actually serves per layer (nil = honest).
+type c04RegLayer struct {
+	Media   string // media code
+	Content []byte
+	Served  []byte
+}
+
+type c04Reg struct {
+	Layers []c04RegLayer
+	Config c04RegLayer
+}
+
+func (l c04RegLayer) toks() string {
+	sv := "="
+	if l.Served != nil {
+		sv = zzverif.Hex(l.Served)
+	}
+	return l.Media + " " + zzverif.Hex(l.Content) + " " + sv
+}
+
+func (l c04RegLayer) served() []byte {
+	if l.Served != nil {
+		return l.Served
+	}
+	return l.Content
 }
 
 func c04OptHex(b []byte) string {
@@ -137,6 +167,17 @@ func (o c04Op) line() string {
 		return "prune"
 	case "litter":
 		return "litter " + zzverif.Hex([]byte(o.File)) + " " + zzverif.Hex(o.Content)
+	case "pull":
+		if o.Reg == nil {
+			return "pull " + o.Name.toks() + " missing"
+		}
+		var sb strings.Builder
+		sb.WriteString("pull " + o.Name.toks() + " " + strconv.Itoa(len(o.Reg.Layers)))
+		for _, l := range o.Reg.Layers {
+			sb.WriteString(" " + l.toks())
+		}
+		sb.WriteString(" " + o.Reg.Config.toks())
+		return sb.String()
 	}
 	panic("bad op kind " + o.Kind)
 }
@@ -219,6 +260,30 @@ func c04ParseOp(s string) c04Op {
 	case "litter":
 		o.File = string(zzverif.Unhex(p.next()))
 		o.Content = zzverif.Unhex(p.next())
+	case "pull":
+		o.Name = p.name()
+		k := p.next()
+		if k != "missing" {
+			n, err := strconv.Atoi(k)
+			if err != nil {
+				panic(err)
+			}
+			rl := func() c04RegLayer {
+				l := c04RegLayer{Media: p.next(), Content: zzverif.Unhex(p.next())}
+				if sv := p.next(); sv != "=" {
+					l.Served = zzverif.Unhex(sv)
+					if l.Served == nil {
+						l.Served = []byte{}
+					}
+				}
+				return l
+			}
+			o.Reg = &c04Reg{}
+			for i := 0; i < n; i++ {
+				o.Reg.Layers = append(o.Reg.Layers, rl())
+			}
+			o.Reg.Config = rl()
+		}
 	default:
 		panic("replay line: bad op " + o.Kind)
 	}
@@ -236,6 +301,7 @@ func (c04Recorder) CloseNotify() <-chan bool { return make(chan bool) }
 type c04Server struct {
 	h   http.Handler
 	dir string
+	t   *testing.T
 }
 
 func (s *c04Server) do(method, path string, body []byte) (int, []byte) {
@@ -381,6 +447,8 @@ func (s *c04Server) exec(o c04Op) string {
 			panic(err)
 		}
 		return "ok"
+	case "pull":
+		return s.pull(o)
 	case "litter":
 		dir := filepath.Join(s.dir, "blobs")
 		if err := os.MkdirAll(dir, 0o755); err != nil {
@@ -425,6 +493,106 @@ func (s *c04Server) exec(o c04Op) string {
 		return "ok"
 	}
 	panic("bad op")
+}
+
+// ---------------------------------------------------------------- pull from an in-memory registry
+
+// c04Net is the network of one pull: a registry that serves one manifest and, per digest, a HEAD with the
+// length and a GET that redirects to a CDN host, which serves the (honest or corrupted) bytes with Range
+// support.  Single-part blobs, no auth.  Everything else (the pull protocol itself) is C03's.
+type c04Net struct {
+	manifest []byte            // nil: 404
+	blobs    map[string][]byte // hex -> served bytes
+}
+
+const c04CDNHost = "cdn.c04.test"
+
+func c04HTTP(req *http.Request, code int, hdr map[string]string, body []byte) *http.Response {
+	r := &http.Response{StatusCode: code, Status: strconv.Itoa(code) + " " + http.StatusText(code), Proto: "HTTP/1.1",
+		ProtoMajor: 1, ProtoMinor: 1, Header: http.Header{}, Request: req, Body: io.NopCloser(bytes.NewReader(body)),
+		ContentLength: int64(len(body))}
+	for k, v := range hdr {
+		r.Header.Set(k, v)
+	}
+	return r
+}
+
+func (n *c04Net) RoundTrip(req *http.Request) (*http.Response, error) {
+	if err := req.Context().Err(); err != nil {
+		return nil, err
+	}
+	host, path := req.URL.Hostname(), req.URL.Path
+	switch {
+	case host == c04CDNHost && strings.HasPrefix(path, "/blob/"):
+		b, ok := n.blobs[strings.TrimPrefix(path, "/blob/")]
+		if !ok {
+			return c04HTTP(req, 404, nil, nil), nil
+		}
+		lo, hi := 0, len(b)-1
+		if rg := req.Header.Get("Range"); strings.HasPrefix(rg, "bytes=") {
+			fmt.Sscanf(rg, "bytes=%d-%d", &lo, &hi)
+		}
+		if lo < 0 || hi >= len(b) || lo > hi+1 {
+			return c04HTTP(req, 416, nil, nil), nil
+		}
+		return c04HTTP(req, 206, nil, b[lo:hi+1]), nil
+	case strings.Contains(path, "/manifests/"):
+		if n.manifest == nil {
+			return c04HTTP(req, 404, nil, []byte(`{"errors":[{"code":"MANIFEST_UNKNOWN"}]}`)), nil
+		}
+		return c04HTTP(req, 200, nil, n.manifest), nil
+	case strings.Contains(path, "/blobs/sha256:"):
+		dig := path[strings.Index(path, "/blobs/sha256:")+len("/blobs/sha256:"):]
+		b, ok := n.blobs[dig]
+		if !ok {
+			return c04HTTP(req, 404, nil, nil), nil
+		}
+		if req.Method == http.MethodHead {
+			r := c04HTTP(req, 200, map[string]string{"Content-Length": strconv.Itoa(len(b))}, nil)
+			r.ContentLength = int64(len(b))
+			return r, nil
+		}
+		return c04HTTP(req, 307, map[string]string{"Location": "https://" + c04CDNHost + "/blob/" + dig}, nil), nil
+	}
+	return c04HTTP(req, 404, nil, nil), nil
+}
+
+// pull runs POST /api/pull (streaming) in fake time against the scripted registry.
+func (s *c04Server) pull(o c04Op) string {
+	net := &c04Net{blobs: map[string][]byte{}}
+	if o.Reg != nil {
+		lay := func(l c04RegLayer) Layer {
+			mt := ""
+			for k, v := range c04MediaCode {
+				if v == l.Media {
+					mt = k
+				}
+			}
+			if _, ok := net.blobs[c04Sum(l.Content)]; !ok {
+				net.blobs[c04Sum(l.Content)] = l.served()
+			}
+			return Layer{MediaType: mt, Digest: "sha256:" + c04Sum(l.Content), Size: int64(len(l.Content))}
+		}
+		m := Manifest{SchemaVersion: 2, MediaType: "application/vnd.docker.distribution.manifest.v2+json"}
+		for _, l := range o.Reg.Layers {
+			m.Layers = append(m.Layers, lay(l))
+		}
+		m.Config = lay(o.Reg.Config)
+		var err error
+		if net.manifest, err = json.Marshal(m); err != nil {
+			panic(err)
+		}
+	}
+	old := http.DefaultTransport
+	http.DefaultTransport = net
+	defer func() { http.DefaultTransport = old }()
+	var res string
+	synctest.Test(s.t, func(t *testing.T) {
+		code, body := s.doJSON(http.MethodPost, "/api/pull", map[string]string{"model": o.Name.full()})
+		res = c04StreamResult(code, body)
+		synctest.Wait()
+	})
+	return res
 }
 
 func (s *c04Server) show(n c04Name) string {
@@ -946,7 +1114,7 @@ func (r *c04Run) apply(o c04Op) {
 	// ---- L2: frame — manifests of other names and the blobs they use are untouched
 	var targets []c04Name
 	switch o.Kind {
-	case "create", "delete", "corrupt", "dashify":
+	case "create", "delete", "corrupt", "dashify", "pull":
 		targets = []c04Name{o.Name}
 	case "copy", "plant":
 		targets = []c04Name{o.Dst}
@@ -1090,6 +1258,7 @@ func (r *c04Run) apply(o c04Op) {
 // ---------------------------------------------------------------- generators
 
 type c04Gen struct {
+	count      func(string)
 	noStreamOK bool // N1 is repaired in the tree under test: non-streaming creates are deterministic
 	r      *zzverif.Rng
 	pool   *c04Pool
@@ -1271,6 +1440,62 @@ func (g *c04Gen) next(sn *c04Snap) c04Op {
 	return o
 }
 
+// c04Config is a config blob as a registry would serve it (any JSON object decodes as ConfigV2).
+func c04Config(family string, n int) []byte {
+	return []byte(fmt.Sprintf("{\"model_format\":\"gguf\",\"model_family\":%q,\"model_type\":\"%dB\",\"file_type\":\"Q4_0\","+
+		"\"architecture\":\"amd64\",\"os\":\"linux\",\"rootfs\":{\"type\":\"layers\",\"diff_ids\":[]}}\n", family, n))
+}
+
+// pullOp: a pull of a name from a registry whose blobs are honest or, for at most one layer INCLUDING the
+// config, corrupted (wrong but well-formed bytes).  Layers come from the same pools as creates use, so pulled
+// and created models share blobs.
+func (g *c04Gen) pullOp(sn *c04Snap) c04Op {
+	o := c04Op{Kind: "pull", Name: g.name()}
+	if n, ok := g.existing(sn, true); ok && g.r.Chance(1, 3) {
+		o.Name = n // pull over an existing model: its replaced layers are collected
+	}
+	if g.r.Chance(1, 20) {
+		return o // the registry has no such model
+	}
+	reg := &c04Reg{}
+	reg.Layers = append(reg.Layers, c04RegLayer{Media: "M", Content: zzverif.Pick(g.r, g.pool.ggufs)})
+	if g.r.Chance(1, 2) {
+		reg.Layers = append(reg.Layers, c04RegLayer{Media: "T", Content: zzverif.Pick(g.r, g.pool.tmpls)})
+	}
+	if g.r.Chance(1, 3) {
+		reg.Layers = append(reg.Layers, c04RegLayer{Media: "S", Content: zzverif.Pick(g.r, g.pool.syss)})
+	}
+	if g.r.Chance(1, 3) {
+		kv := zzverif.Pick(g.r, g.pool.parms)
+		reg.Layers = append(reg.Layers, c04RegLayer{Media: "P", Content: []byte("{\"" + kv[0] + "\":" + kv[1] + "}\n")})
+	}
+	if g.r.Chance(1, 5) {
+		reg.Layers = append(reg.Layers, c04RegLayer{Media: "L", Content: zzverif.Pick(g.r, g.pool.lics)})
+	}
+	reg.Config = c04RegLayer{Media: "C", Content: c04Config(zzverif.Pick(g.r, []string{"llama", "gemma", "qwen2"}), g.r.Range(1, 3))}
+	if g.r.Chance(1, 3) {
+		// corrupt exactly one entry; the config as often as all the others together
+		if g.r.Chance(1, 2) {
+			reg.Config.Served = c04Config("corrupted", 9)
+			g.outCount("pull_corrupt_config")
+		} else {
+			i := g.r.Intn(len(reg.Layers))
+			reg.Layers[i].Served = append(append([]byte{}, reg.Layers[i].Content...), 'X')
+			g.outCount("pull_corrupt_layer_" + reg.Layers[i].Media)
+		}
+	} else {
+		g.outCount("pull_honest")
+	}
+	o.Reg = reg
+	return o
+}
+
+func (g *c04Gen) outCount(k string) {
+	if g.count != nil {
+		g.count(k)
+	}
+}
+
 func (g *c04Gen) next0(sn *c04Snap) c04Op {
 	nm := 0
 	if sn != nil {
@@ -1282,6 +1507,9 @@ func (g *c04Gen) next0(sn *c04Snap) c04Op {
 	}
 	if nm == 0 && x >= 45 {
 		x = g.r.Intn(45)
+	}
+	if g.r.Chance(1, 11) {
+		return g.pullOp(sn)
 	}
 	// class-specific operations first
 	switch {
@@ -1376,7 +1604,7 @@ func c04NewServer(t *testing.T, dir string) *c04Server {
 	if err != nil {
 		t.Fatal(err)
 	}
-	return &c04Server{h: h, dir: dir}
+	return &c04Server{h: h, dir: dir, t: t}
 }
 
 func (r *c04Run) begin(t *testing.T, base string, idx int) {
@@ -1585,6 +1813,14 @@ func TestVerifC04(t *testing.T) {
 		// SYSTEM equal to the auto-detected parameters, PARAMETERS that change them (N2)
 		{up(pool.chatG), {Kind: "create", Name: nm("library", "a"), Files: []c04Digest{{Hex: c04Sum(pool.chatG)}}, Sys: pool.chatP,
 			Params: [][2]string{{"num_ctx", "2048"}}}},
+		// pulls: honest; corrupted config on a fresh store (must be refused); corrupted weights; a pull over an
+		// existing model (replaced layers collected, shared ones kept); config already in the store (cache hit)
+		{{Kind: "pull", Name: nm("library", "p"), Reg: &c04Reg{Layers: []c04RegLayer{{Media: "M", Content: g0}, {Media: "T", Content: pool.tmpls[0]}}, Config: c04RegLayer{Media: "C", Content: c04Config("llama", 1)}}},
+			{Kind: "pull", Name: nm("library", "q"), Reg: &c04Reg{Layers: []c04RegLayer{{Media: "M", Content: g0}}, Config: c04RegLayer{Media: "C", Content: c04Config("gemma", 2), Served: c04Config("corrupted", 9)}}},
+			{Kind: "pull", Name: nm("library", "q"), Reg: &c04Reg{Layers: []c04RegLayer{{Media: "M", Content: g1, Served: append(append([]byte{}, g1...), 'X')}}, Config: c04RegLayer{Media: "C", Content: c04Config("gemma", 2)}}},
+			{Kind: "pull", Name: nm("library", "q"), Reg: &c04Reg{Layers: []c04RegLayer{{Media: "M", Content: g1}}, Config: c04RegLayer{Media: "C", Content: c04Config("gemma", 2)}}},
+			{Kind: "pull", Name: nm("library", "p"), Reg: &c04Reg{Layers: []c04RegLayer{{Media: "M", Content: g1}, {Media: "S", Content: pool.syss[0]}}, Config: c04RegLayer{Media: "C", Content: c04Config("gemma", 2), Served: c04Config("corrupted", 9)}}},
+			{Kind: "pull", Name: nm("library", "r")}, {Kind: "delete", Name: nm("library", "q")}, {Kind: "prune"}},
 		// leftovers and other non-blob names in blobs/, then the startup sequence
 		{up(g0), mk(nm("library", "a"), false, g0),
 			{Kind: "litter", File: "sha256-" + c04Sum(g1) + "-partial", Content: []byte("x")},
@@ -1664,6 +1900,7 @@ func TestVerifC04(t *testing.T) {
 		out.Count(fmt.Sprintf("histories_class%d", class))
 		g := c04NewGen(r, pool, class)
 		g.noStreamOK = fixReturn
+		g.count = out.Count
 		run.begin(t, base, hist)
 		hist++
 		// most histories start with a few blobs in place
